@@ -4,23 +4,29 @@
 (* behaviour: the requests and the order in which they take their stages.   *)
 EXTENDS ServePipeline, Json, IOUtils
 
-CONSTANTS NReqs, MaxSwitches   \* context-switch bound (CHESS style); NReqs * stages when unbounded
+CONSTANTS NReqs, MaxSwitches, Mode   \* context-switch bound (CHESS style); NReqs * stages when unbounded
 
 VARIABLES s, hist, sw, done
 vars == <<s, hist, sw, done>>
 
-Profiles == <<[ctype |-> "json", accept |-> "json", cu |-> "u1"],
-              [ctype |-> "text", accept |-> "text", cu |-> "u2"],
-              [ctype |-> "json", accept |-> "text", cu |-> "u1"]>>
+\* Mode "good": all pairs of admissible requests; "mixed": an admissible request next to one with exactly
+\* one thing wrong (either order); "solo": one request, every operation/credential kind x every defect.
+Choices(k) ==
+  CASE Mode = "good"  -> { <<oc, "none">> : oc \in OpCreds }
+    [] Mode = "solo"  -> { <<oc, d>> \in OpCreds \X DefectKinds : DefectApplies(oc[1], d) }
+    [] Mode = "mixed" -> { <<oc, d>> \in OpCreds \X DefectKinds : DefectApplies(oc[1], d) }
 
-Req(k, op, c) == [op |-> op, id |-> "i" \o ToString(k), body |-> "b" \o ToString(k),
-                  ctype |-> Profiles[k].ctype, accept |-> Profiles[k].accept,
-                  cs |-> c, cu |-> Profiles[k].cu]
+MixedOK(f) == Mode = "mixed" => (Cardinality({k \in DOMAIN f : f[k][2] # "none"}) = 1)
 
-OpCreds == { <<"opA", "key">>, <<"opB", NoneStr>>, <<"opC", "key">>, <<"opC", "tok">>, <<"opD", "key">> }
+\* "solo": every consistent SET of defects at once (what is answered when several things are wrong)
+SoloInit == \E oc \in OpCreds, ds \in SUBSET (DefectKinds \ {"none"}) :
+              /\ Consistent(ds) /\ \A d \in ds : DefectApplies(oc[1], d)
+              /\ s = InitState(<<WithDefects(Req(1, oc[1], oc[2]), ds)>>)
 
-Init == /\ \E f \in [1..NReqs -> OpCreds] :
-              s = InitState([k \in 1..NReqs |-> Req(k, f[k][1], f[k][2])])
+Init == /\ IF Mode = "solo" THEN SoloInit
+           ELSE \E f \in [1..NReqs -> UNION {Choices(k) : k \in 1..NReqs}] :
+              /\ MixedOK(f)
+              /\ s = InitState([k \in 1..NReqs |-> WithDefect(Req(k, f[k][1][1], f[k][1][2]), f[k][2])])
         /\ hist = << >> /\ sw = 0 /\ done = FALSE
         /\ TLCSet(1, << >>)
 
